@@ -107,9 +107,17 @@ def repair_bounds(n, k, heap):
     return row_bound, jumps
 
 
+JUMP_UTIL = {}
+
+
 def budgeted(fn, kwargs, jumps, rows=None):
     """Run on the step clock; a first back-edge trip with row reads in bound is re-executed once with 5x budget."""
     out = SC.call(fn, kwargs, jump_budget=jumps, row_budget=(rows + 1) if rows is not None else None)
+    if out.kind != "budget" and jumps:
+        name = getattr(fn, "__name__", "?") + ".back-edges"
+        u = float(out.jumps) / jumps
+        if u > JUMP_UTIL.get(name, 0.0):
+            JUMP_UTIL[name] = u
     if out.kind == "budget" and out.which == "back-edge" and rows is not None:
         out = SC.call(fn, kwargs, jump_budget=5 * jumps, row_budget=(rows + 1) if rows is not None else None)
     return out
@@ -211,8 +219,30 @@ def op_design(op, world, ctx):
         if not numpy.array_equal(snapshot, mask):
             ctx.stats.inc("probes", "design:mask-mutated")
         design = Design(op["id"], k, rows, generated=True, threshold=op["threshold"], source=kind)
+        design.raw = accessor        # the very object the library handed back (its owner may edit it in place)
         model = M.coding_graph_model([bool(x) for x in snapshot.tolist()], k, op["threshold"])
         ctx.stats.inc("probes", "design:equals-fixed-point-model" if model == rows else "design:differs-from-model")
+    elif kind == "trim-inplace":
+        # the owner of a generated graph screens its arcs in place (as experiments/code_repair.py does); the edited graph
+        # is no longer a generation result, so the design is retired
+        target = world.designs.get(op["target"])
+        raw = getattr(target, "raw", None) if target is not None else None
+        if raw is None:
+            rec["out"] = {"kind": "skipped"}
+            return rec
+        latter_map = dsw.accessor_to_latter_map(raw)
+        done = 0
+        for _ in range(op["removals"]):
+            ctx.stats.lib_calls += 1
+            out = budgeted(dsw.remove_nasty_arc, dict(accessor=raw, latter_map=latter_map, has_insertion=op["ins"],
+                                                       has_deletion=op["del"]), 5000000)
+            if out.kind != "returned":
+                break
+            done += 1
+        del world.designs[op["target"]]
+        ctx.stats.inc("probes", "design:trim-inplace")
+        rec["out"] = {"kind": "returned", "removed": done}
+        return rec
     elif kind == "trim":
         base = world.designs.get(op["base"])
         if base is None:
@@ -449,9 +479,11 @@ def oracle_c06(op, design, out, ctx):
 def read_repair(op, world, design, ctx):
     dsw, read, k = world.dsw, op["read"], design.k
     heap = op.get("heap", 1000)
+    if heap == "inf":
+        heap = float("inf")      # the natural way to ask for an unrestrictive limit
     kwargs = dict(dna_sequence=read, accessor=design.accessor(world.proxy), start_index=op["start"],
                   observed_length=k, vt_check=op.get("check"), has_indel=op.get("has_indel", False), heap_size=heap)
-    row_bound, jumps = repair_bounds(len(read), k, heap)
+    row_bound, jumps = repair_bounds(len(read), k, 1000 if heap == float("inf") else heap)
     ctx.stats.lib_calls += 1
     out = budgeted(dsw.repair_dna, kwargs, jumps * ctx.budget_scale, row_bound if world.proxy else None)
     rec = {"out": out.brief(), "res": sha(norm_result(out.value))[:16] if out.kind == "returned" else None}
